@@ -399,3 +399,59 @@ def r12_wrapped_widening(ctx):
 
 
 RULES += [r12_wrapped_widening]
+
+
+def r13_term_widening_left_operand(ctx):
+    ctx.rule("C05.r13", "term domain widening: the value of the base domain handed to the base widening as its LEFT argument is the "
+             "previous iterate as it is - it has not gone through a transformer that normalises (closes) it (assign / apply / "
+             "constraint addition); with zones as base domain a closed left argument defeats termination (Mine's example)", floor=1)
+    TE = "include/crab/domains/term_equiv.hpp"
+    fs = [f for f in ctx.db.fns(TE, cpk="crab::domains::term_domain", name="widening") if f.get("body")]
+    if not ctx.need(fs, "term_domain::widening"):
+        return
+    seen = set()
+    for fn in fs:
+        if fn["line"] in seen:
+            continue
+        seen.add(fn["line"])
+        body = fn["body"]
+        apps = [c for c in walk(body) if is_call(c, name="apply") and len(c.get("a", [])) == 2 and isinstance(strip(c.get("o")), dict)
+                and strip(c["o"]).get("k") == "ref" and strip(c["o"]).get("rk") in ("param", "local")]
+        apps = [c for c in apps if isinstance(strip(c["a"][0]), dict) and strip(c["a"][0]).get("k") == "ref"]
+        if not apps:
+            ctx.undecided("term_domain::widening: the call of the base widening was not found", fn, body)
+            continue
+        left = strip(apps[0]["a"][0])
+        closing = [c for c in walk(body) if c.get("k") == "call" and callee(c) and callee(c)["name"] in ("assign", "apply", "operator+=", "normalize")
+                   and isinstance(strip(c.get("o")), dict) and strip(c["o"]).get("id") == left.get("id")]
+        if closing:
+            ctx.bad("term_domain::widening renames the terms of its LEFT operand with `%s` before the base widening: with split_dbm as base "
+                    "domain the assignment closes the left argument and the chain x_{k+1} = x_k widen {|v1-v2|<=1, v1<=k+1, v2<=k+1} is not "
+                    "stationary after 300 steps (2 steps for split_dbm itself)" % src(closing[0])[:40], fn, closing[0],
+                    sig="widening-left-operand-transformed")
+        else:
+            ctx.ok("the left argument of the base widening is not transformed", fn, apps[0])
+
+
+RULES += [r13_term_widening_left_operand]
+
+
+def r14_environment_widening_operand_order(ctx):
+    ctx.rule("C05.r14", "the environment domains widen pointwise through the Patricia-tree merge: every recursive call of the merge keeps "
+             "(old, new) in order, otherwise a subtree computes `new widen old` (a join) and a bound growing there is never "
+             "extrapolated (same rule instance as C19.r12)", floor=6)
+    from . import C19
+    C19.r12_merge_operand_order(ctx)
+    r = ctx.rules.pop("C19.r12", None)
+    if r is not None:
+        tgt = ctx.rules["C05.r14"]
+        for k in ("ok", "bad", "undecided"):
+            tgt[k] += r[k]
+        tgt["samples"] += r["samples"]
+        for v in ctx.violations:
+            if v["rule"] == "C19.r12":
+                v["rule"] = "C05.r14"
+                v["rule_desc"] = tgt["desc"]
+
+
+RULES += [r14_environment_widening_operand_order]
